@@ -312,6 +312,10 @@ func cmdCheck(args []string) int {
 			defer wg.Done()
 			defer func() { <-sem }()
 			j.o.Script = j.v.buildScript(j.o)
+			if j.o.Goal == "false" && j.o.Reach == "true" && (j.o.Kind == "spec" || j.o.Kind == "engine") {
+				j.o.Res = SolverResult{Status: "spec-error", Solver: "none"}
+				return
+			}
 			to := eng.timeoutS
 			if j.o.Expect == "sat" {
 				to = 3
@@ -415,6 +419,11 @@ func cmdCheck(args []string) int {
 			violations++
 			path := writeReplay(replayDir, "bounded."+mangle(fmt.Sprint(bs["name"])), fmt.Sprintf("bounded validation %v failed\n%v\n", bs["name"], bs["output"]))
 			fmt.Printf("VIOLATION property=%s replay=%s obligation=bounded.%v no-failing-input-found\n", *prop, path, bs["name"])
+		}
+	}
+	if *verbose {
+		for _, n := range notes {
+			fmt.Println("  note:", n)
 		}
 	}
 	wall := time.Since(start).Seconds()
